@@ -73,7 +73,18 @@ Inductive case :=
                 (obs : list (N * list deleg_entry * list (name * option deleg_entry)))
                 (* afterwards, the real searchCache for some question names (DS question or not): the zone label of
                    the server set it starts with (None: the root servers) and the level it seeds *)
-                (searches : list (name * bool * option name * nat)).
+                (searches : list (name * bool * option name * nat))
+  (* the real Resolver.minimize(req, level, nomin) with qnameMinLevel = qml: the name that is asked instead of the
+     question's (None: the request is sent as it is) *)
+| CaseMinimize (qml : nat) (nomin : bool) (level : nat) (q : question) (obs : option name)
+  (* lab: the real Resolver.resolve on the servers of [auth] with rs.level = level and qnameMinLevel = qml; the scripted
+     server answers the FIRST question it is sent with the event's message ([DelegMin]: that question was the
+     minimised name [sent]; [DelegMsg]: the full question, sent = None) and everything later with an empty NOERROR +
+     SOA.  Observed: how the hop ended (classes of CaseDelegHist, 5 = the same servers were asked the next longer
+     name), provisional entries seen at the address lookups, entries on file afterwards, the next name any server
+     was asked on behalf of this resolution, whether an Answer record of the message is in the final result *)
+| CaseMinHop (local : list ipaddr) (qml : nat) (e : deleg_event) (sent : option name) (cls : N) (snaps : list deleg_entry)
+             (probes : list (name * option deleg_entry)) (next : option name) (relayed : bool).
 
 (* ---------------------------------------------------------------- helpers *)
 Fixpoint list_eqb {A} (eqb : A -> A -> bool) (a b : list A) : bool :=
@@ -186,10 +197,11 @@ Definition model_glue_names (level : nat) (auth : name) (q : question) (m : umsg
 Definition de_eqb (a b : deleg_entry) : bool :=
   name_eqb (de_zone a) (de_zone b) && list_eqb name_eqb (de_hosts a) (de_hosts b) && list_eqb ipaddr_eqb (de_servers a) (de_servers b).
 Definition outcome_class (o : deleg_outcome) : N :=
-  match o with DoAuthority => 0 | DoRejected => 1 | DoParent => 2 | DoCached | DoStored => 3 | DoNoServers => 4 end.
+  match o with DoAuthority => 0 | DoRejected => 1 | DoParent => 2 | DoCached | DoStored => 3 | DoNoServers => 4 | DoRetry => 5 end.
 (* the lookup order handed to the model is a permutation of the referral's host set *)
 Definition order_wf (e : deleg_event) : bool :=
-  match e with DelegMsg _ _ _ m order _ => same_names order (di_hosts (extract_info (u_ns m))) && Nat.eqb (length order) (length (di_hosts (extract_info (u_ns m)))) end.
+  match e with DelegMsg _ _ _ m order _ | DelegMin _ _ _ m order _ =>
+    same_names order (di_hosts (extract_info (u_ns m))) && Nat.eqb (length order) (length (di_hosts (extract_info (u_ns m)))) end.
 Definition search_check (dc : deleg_cache) (s : name * bool * option name * nat) : bool :=
   let '(n, ds, oz, olv) := s in
   let '(r, lv) := search_cache dc ds n in
@@ -207,6 +219,10 @@ Fixpoint deleg_check (local : list ipaddr) (st : deleg_state) (evs : list deleg_
       order_wf e && deleg_check local st1 er orest searches
   | _, _ => false
   end.
+
+(* the name asked when a resolution goes on at level [level] *)
+Definition next_name (qml level : nat) (q : question) : name :=
+  match minimize qml false level q with Some mq => q_name mq | None => q_name q end.
 
 Definition check_case (c : case) : bool :=
   match c with
@@ -281,6 +297,22 @@ Definition check_case (c : case) : bool :=
       | None => match acc, srv, f4 with None, [], [] => true | _, _, _ => false end
       end
   | CaseDelegHist local evs obs searches => deleg_check local ([], []) evs obs searches
+  | CaseMinimize qml nomin level q obs => opt_eqb name_eqb (option_map q_name (minimize qml nomin level q)) obs
+  | CaseMinHop local qml e sent cls snaps probes next relayed =>
+      let '(_, level, q, _) := ev_parts e in
+      (match minimize qml false level q, e, sent with
+       | Some mq, DelegMin _ _ _ _ _ _, Some s => name_eqb s (q_name mq)
+       | None, DelegMsg _ _ _ _ _ _, None => true
+       | _, _, _ => false
+       end) &&
+      deleg_check local ([], []) [e] [(cls, snaps, probes)] [] &&
+      (let r := snd (deleg_apply local ([], []) e) in
+       opt_eqb name_eqb next
+         (match dr_outcome r with
+          | DoRetry => Some (next_name qml (S level) q)
+          | DoStored => option_map (fun d => next_name qml (length (de_zone d)) q) (dr_final r)
+          | _ => None
+          end))
   end.
 
 Definition spec_glue_source (local : list ipaddr) (host : name) (a : ipaddr) (evs : list glue_event) : bool :=
@@ -312,7 +344,7 @@ Definition first_ns_owner (m : umsg) : name := match ns_records (u_ns m) with r0
 Definition spec_deleg_entry (local : list ipaddr) (seen : list deleg_event) (k : name) (d : deleg_entry) : bool :=
   spec_same_name (de_zone d) k &&
   existsb (fun e => match e with
-                    | DelegMsg auth _ q m _ _ =>
+                    | DelegMsg auth _ q m _ _ | DelegMin auth _ q m _ _ =>
                         spec_valid_referral (u_ns m) auth q && spec_same_name (first_ns_owner m) k &&
                         forallb (fun h => existsb (fun r => match rr_data r with RdName t => spec_same_name t h | _ => false end)
                                                   (ns_records (u_ns m))) (de_hosts d)
@@ -323,7 +355,7 @@ Fixpoint deleg_spec (local : list ipaddr) (seen : list deleg_event) (evs : list 
   match evs, obs with
   | e :: er, (_, snaps, probes) :: orest =>
       let seen' := seen ++ [e] in
-      let k := match e with DelegMsg _ _ _ m _ _ => first_ns_owner m end in
+      let k := match e with DelegMsg _ _ _ m _ _ | DelegMin _ _ _ m _ _ => first_ns_owner m end in
       forallb (spec_deleg_entry local seen' k) snaps &&
       forallb (fun p => match snd p with Some d => spec_deleg_entry local seen' (fst p) d | None => true end) probes &&
       deleg_spec local seen' er orest
@@ -431,4 +463,22 @@ Definition spec_case (c : case) : bool :=
                         | Some z => spec_in_zone z n && Nat.eqb lv (length z) && (if ds : bool then Nat.ltb (length z) (length n) else true)
                         | None => Nat.eqb lv 0
                         end) searches
+  | CaseMinimize qml nomin level q obs =>
+      (* what is asked instead of the question's name is a proper suffix of it, one label longer than the level *)
+      match obs with
+      | Some n => spec_in_zone n (q_name q) && Nat.eqb (length n) (S level) && Nat.ltb (length n) (length (q_name q)) && negb nomin
+      | None => true
+      end
+  | CaseMinHop local qml e sent cls snaps probes next relayed =>
+      deleg_spec local [] [e] [(cls, snaps, probes)] &&
+      (* a reply that carries an Answer section for a question the client did not ask is dropped whole: nothing of it
+         is relayed, nothing is filed, the resolution goes on with the next name *)
+      match e with
+      | DelegMin _ _ _ m _ _ =>
+          match u_answer m with
+          | [] => true
+          | _ => (cls =? 5) && negb relayed && forallb (fun p => match snd p with None => true | Some _ => false end) probes
+          end
+      | DelegMsg _ _ _ _ _ _ => true
+      end
   end.
